@@ -580,6 +580,7 @@ func NewWorld(cfg Config, s *Sched) (*World, error) {
 	w := &World{Dir: dir, Drive: filepath.Join(dir, "drive.tar"), Index: filepath.Join(dir, "index.sqlite"), Cfg: cfg, Sched: s}
 	w.Dev = NewDevices(s)
 	w.Dev.yieldIO = !asyncCodec(cfg)
+	detNote("world " + cfg.String())
 	simhook.InstallOs(w.Dev.osHooks())
 	return w, nil
 }
